@@ -93,10 +93,11 @@ class Spec:
                     for e in sc["entries"]:
                         self.deliver(e["name"], it, e["parent"] or it["parent"], e["props"], e["events"], "local", born=e["born"], fin=None)
                         self.expected[-1]["closed"] = e["closed"]
+                        self.expected[-1]["groups"] = self.local_groups(e)
                     # attachments made with no local span open go to the span set as local parent
                     owner = sc["owner"]
                     for a in sc["to_owner"]:
-                        owner["attached"].append((it["root"], a))
+                        owner["attached"].append((it["root"], a, ("local", t)))
         elif g[0] == "coll":
             if g[1] is not None:
                 th["scopes"].pop()
@@ -167,7 +168,7 @@ class Spec:
                 for it in sp["items"]:
                     if it["sampled"]:
                         self.touch(t)
-                        sp["attached"].append((it["root"], ("props", kvs)))
+                        sp["attached"].append((it["root"], ("props", kvs), ("handle", t)))
         elif op == "addEvent":
             sp = self.spans[a[0]]
             name = unhx(a[1])
@@ -176,7 +177,7 @@ class Spec:
                 for it in sp["items"]:
                     if it["sampled"]:
                         self.touch(t)
-                        sp["attached"].append((it["root"], ("event", name, props)))
+                        sp["attached"].append((it["root"], ("event", name, props), ("handle", t)))
         elif op == "drop":
             self.drop_record(t, self.spans.pop(a[0]), pos)
         elif op == "cancel":
@@ -263,6 +264,7 @@ class Spec:
             self.closure_obs.append((pos, g[1] is not None))
             if g[1] is not None:
                 g[1]["props"] += kvs
+                g[1].setdefault("own_props", []).extend(kvs)
         elif op == "lAddProps":
             kvs = rprops(a[0].split(":", 1)[1])
             sc = self.top(t)
@@ -289,7 +291,7 @@ class Spec:
             for it in sp["items"]:
                 if it["sampled"]:
                     for o in orphans:
-                        sp["attached"].append((it["root"], o))
+                        sp["attached"].append((it["root"], o, ("pushed", t)))
             if not ents:
                 if any(it["sampled"] for it in sp["items"]):
                     self.touch(t)
@@ -300,6 +302,7 @@ class Spec:
                     for e in ents:
                         self.deliver(e["name"], it, e["parent"] or it["parent"], e["props"], e["events"], "pushed", born=e["born"])
                         self.expected[-1]["closed"] = e["closed"]
+                        self.expected[-1]["groups"] = self.local_groups(e)
         elif op == "unwind":
             while th["guards"]:
                 g = th["guards"].pop()
@@ -344,11 +347,19 @@ class Spec:
                 self.drop_record(t, ad["span"], pos)
         # toRecords, cycle, flush, cycBegin, cycStep, stats, cycleAtPush, inlineReport, procstats, tlsProbe: no effect on the expectation
 
+    @staticmethod
+    def local_groups(e):
+        """a local span's own `with_properties` calls, and what was attached through the local parent while it was
+        the innermost open span: each keeps its order (one thread, one route)"""
+        return {("local-own", None): {"props": list(e.get("own_props", [])), "events": []},
+                ("local-span", None): {"props": list(e.get("att_props", [])), "events": list(e["events"])}}
+
     def attach_local(self, sc, a):
         if sc["open"]:
             e = sc["open"][-1]
             if a[0] == "props":
                 e["props"] += a[1]
+                e.setdefault("att_props", []).extend(a[1])
             else:
                 e["events"].append((a[1], a[2]))
         elif sc["kind"] == "parent":
@@ -372,16 +383,23 @@ class Spec:
         for it in sp["items"]:
             if it["sampled"]:
                 self.touch(t)
-                att = [x for (rk, x) in sp["attached"] if rk == it["root"]]
+                att = [(x, tag) for (rk, x, tag) in sp["attached"] if rk == it["root"]]
                 props = list(sp["props"])
                 events = []
-                for x in att:
+                # order is specified per route and thread (C06): the span's own properties, then one group per
+                # (route, thread) of later attachments
+                groups = {("own", None): {"props": list(sp["props"]), "events": []}}
+                for x, tag in att:
+                    g = groups.setdefault(tag, {"props": [], "events": []})
                     if x[0] == "props":
                         props += x[1]
+                        g["props"] += x[1]
                     else:
                         events.append((x[1], x[2]))
+                        g["events"].append((x[1], x[2]))
                 self.deliver(sp["name"], it, it["parent"], props, events, "span", born=sp["born"])
                 self.expected[-1]["closed"] = pos
+                self.expected[-1]["groups"] = groups
         if sp["root_key"]:
             self.touch(t)
             if sp["root_key"] != "U":
@@ -701,7 +719,14 @@ class Gen:
                 self.op_touch(t)
             self.op_root(t, True)
             self.registered += 1
+        flush = self.step == 1 and self.k.get("stepped_flush") and self.r.chance(1, 2)
+        if flush:
+            # flush() is called while the cycle is reporting: it waits for that cycle and then runs its own, so what
+            # finished before the call is delivered when it returns
+            self.emit(0, "flushBegin")
         self.emit(0, "cycStep")
+        if flush:
+            self.emit(0, "flushEnd")
         self.step -= 1
         if self.step == 0:
             self.step = None
